@@ -1,6 +1,6 @@
 (* C08 — Meek rule closure is sound and complete on patterns.  Statements: C08/Spec.v; model: C08/Model.v. *)
 From Coq Require Import List Arith Bool.
-From PG Require Import Base.ListSet Graph.MGraph C08.Model C08.Spec C08.Proofs C08.Bounded_n4 C08.Refuted C08.Acyclic C08.Cover C08.Fast C08.Bounded_n5 C08.Cover5 C08.Ext C08.ExtEss C08.Reflect.
+From PG Require Import Base.ListSet Graph.MGraph C08.Model C08.Spec C08.Proofs C08.Bounded_n4 C08.Refuted C08.Acyclic C08.Cover C08.Fast C08.Bounded_n5 C08.Cover5 C08.Ext C08.ExtEss C08.Reflect C08.Chordal C08.ChordalOrient C08.ChordalComplete C08.Topo.
 Import ListNotations.
 
 (* unbounded: the closure only turns undirected edges into directed ones (nodes, skeleton, directed edges kept) *)
@@ -105,3 +105,64 @@ Theorem fully_oriented_is_its_extension : forall q d, U q = [] -> consistent_ext
   (forall a c b, vstructb q a c b = true <-> vstructb d a c b = true).
 Proof. exact full_is_extension. Qed.
 Print Assumptions fully_oriented_is_its_extension.
+
+(* ---- chordal graphs (C08/Chordal.v, ChordalOrient.v, ChordalComplete.v), ALL sizes ----
+   chordal_g t: the undirected layer of t has a perfect elimination ordering (PEO) of its node set *)
+
+(* Dirac's lemma on a PEO: complete, or two non-adjacent simplicial vertices *)
+Theorem dirac_two_simplicial : forall adj, (forall a b, adj a b = adj b a) -> (forall a, adj a a = false) ->
+  forall l, NoDup l -> is_peo adj l ->
+  complete adj l \/ exists x y, In x l /\ In y l /\ x <> y /\ adj x y = false /\ simpl_in adj l x /\ simpl_in adj l y.
+Proof. exact dirac. Qed.
+Print Assumptions dirac_two_simplicial.
+
+(* KEY LEMMA: every vertex can be made the LAST one of a PEO (the source of the orientation "later -> earlier") *)
+Theorem peo_with_any_vertex_last : forall adj, (forall a b, adj a b = adj b a) -> (forall a, adj a a = false) ->
+  forall n l, length l <= n -> NoDup l -> is_peo adj l -> forall a, In a l ->
+  exists l', NoDup (l' ++ [a]) /\ (forall x, In x (l' ++ [a]) <-> In x l) /\ is_peo adj (l' ++ [a]).
+Proof. exact peo_last. Qed.
+Print Assumptions peo_with_any_vertex_last.
+
+(* a chordal all-undirected graph has a consistent DAG extension without v-structures ... *)
+Theorem chordal_has_vfree_extension : forall t, pwf t -> D t = [] -> chordal_g t ->
+  exists d, consistent_ext t d /\ (forall a c b, vstructb d a c b = false).
+Proof. exact chordal_vext. Qed.
+Print Assumptions chordal_has_vfree_extension.
+
+(* ... and EVERY undirected edge u - v can be oriented u -> v (hence also v -> u) inside such an extension *)
+Theorem chordal_every_edge_orientable : forall t u v, pwf t -> D t = [] -> chordal_g t -> has_u t u v = true ->
+  exists d, consistent_ext (orient t u v) d /\ (forall a c b, vstructb d a c b = false).
+Proof. exact chordal_any_edge. Qed.
+Print Assumptions chordal_every_edge_orientable.
+
+(* the boolean acyclicity test is complete as well as sound *)
+Theorem acyclicb_iff_acyclic_complete : forall g, acyclic g -> acyclicb g = true.
+Proof. exact acyclicb_complete. Qed.
+Print Assumptions acyclicb_iff_acyclic_complete.
+
+(* COMPLETENESS ON PATTERNS FOR ALL SIZES on the DAGs without v-structures (given with a reverse topological order l0):
+   the closure of the pattern (= the all-undirected skeleton) equals the essential graph computed by the brute-force oracle,
+   i.e. no edge is compelled: each edge a -> b is reversed in a member of the Markov class (PEO with b last) *)
+Theorem meek_complete_on_vfree_dags_all_sizes : forall d0 l0,
+  edges_ok (V d0) (D d0) = true -> U d0 = [] -> vfree_g d0 -> rev_topo d0 l0 ->
+  pdag_eqb (meek_model (pattern_of d0)) (essential_graph d0) = true.
+Proof. exact (fun d0 l0 Hwf HU Hvf Ht => complete_vfree d0 Hwf HU Hvf l0 Ht). Qed.
+Print Assumptions meek_complete_on_vfree_dags_all_sizes.
+
+(* every well-formed acyclic directed graph has a reverse topological order (sorting by the number of descendants) *)
+Theorem reverse_topological_order_exists : forall g, edges_ok (V g) (D g) = true -> acyclic g -> exists l, rev_topo g l.
+Proof. exact topo_exists. Qed.
+Print Assumptions reverse_topological_order_exists.
+
+(* hence: COMPLETENESS ON PATTERNS, ALL SIZES, for EVERY well-formed acyclic DAG without v-structures *)
+Theorem meek_complete_on_vfree_dags_all_sizes_unconditional : forall d0,
+  edges_ok (V d0) (D d0) = true -> U d0 = [] -> acyclic d0 -> vfree_g d0 ->
+  pdag_eqb (meek_model (pattern_of d0)) (essential_graph d0) = true.
+Proof. exact complete_vfree_all. Qed.
+Print Assumptions meek_complete_on_vfree_dags_all_sizes_unconditional.
+
+(* and conversely to chordal_has_vfree_extension: an all-undirected graph with a v-structure-free consistent extension is chordal *)
+Theorem vfree_extension_implies_chordal : forall t d, pwf t -> D t = [] ->
+  consistent_ext t d -> (forall a c b, vstructb d a c b = false) -> chordal_g t.
+Proof. exact vfree_extension_gives_chordal. Qed.
+Print Assumptions vfree_extension_implies_chordal.
